@@ -75,8 +75,18 @@ pub fn run<T: DeserializeOwned + Serialize>(req: &Value, call: fn(&mut T, &str, 
     json!({"kind": "ok", "step": n.saturating_sub(1), "ret": last, "recv": serde_json::to_value(&obj).unwrap_or(Value::Null)})
 }
 
+fn mse(v: &Value) -> Result<MassSideEffect, Unsup> {
+    match v.as_str().unwrap_or("") {
+        "None" => Ok(MassSideEffect::None),
+        "Extensive" => Ok(MassSideEffect::Extensive),
+        "Intensive" => Ok(MassSideEffect::Intensive),
+        s => Err(Unsup(format!("MassSideEffect {s}"))),
+    }
+}
+
 fn call_fc(o: &mut FuelConverter, fname: &str, a: &[Value]) -> CallRes {
     match fname {
+        "<FuelConverter as Mass>::set_mass" => unit(o.set_mass(of(&a[0]).map(|x| x * uc::KG), mse(&a[1])?)),
         "FuelConverter::solve_energy_consumption" => unit(o.solve_energy_consumption(f(&a[0]) * uc::W, f(&a[1]) * uc::S, b(&a[2]), b(&a[3]))),
         "FuelConverter::set_cur_pwr_out_max" => unit(o.set_cur_pwr_out_max(f(&a[0]) * uc::S)),
         _ => Err(Unsup(format!("no runner entry for {fname}"))),
@@ -85,6 +95,7 @@ fn call_fc(o: &mut FuelConverter, fname: &str, a: &[Value]) -> CallRes {
 
 fn call_gen(o: &mut Generator, fname: &str, a: &[Value]) -> CallRes {
     match fname {
+        "<Generator as Mass>::set_mass" => unit(o.set_mass(of(&a[0]).map(|x| x * uc::KG), mse(&a[1])?)),
         "Generator::set_pwr_in_req" => unit(o.set_pwr_in_req(f(&a[0]) * uc::W, f(&a[1]) * uc::W, f(&a[2]) * uc::S)),
         "Generator::set_cur_pwr_max_out" => unit(o.set_cur_pwr_max_out(f(&a[0]) * uc::W, of(&a[1]).map(|x| x * uc::W))),
         _ => Err(Unsup(format!("no runner entry for {fname}"))),
@@ -102,6 +113,7 @@ fn call_edrv(o: &mut ElectricDrivetrain, fname: &str, a: &[Value]) -> CallRes {
 
 fn call_res(o: &mut ReversibleEnergyStorage, fname: &str, a: &[Value]) -> CallRes {
     match fname {
+        "<ReversibleEnergyStorage as Mass>::set_mass" => unit(o.set_mass(of(&a[0]).map(|x| x * uc::KG), mse(&a[1])?)),
         "ReversibleEnergyStorage::solve_energy_consumption" => unit(o.solve_energy_consumption(f(&a[0]) * uc::W, f(&a[1]) * uc::W, f(&a[2]) * uc::S)),
         "ReversibleEnergyStorage::set_cur_pwr_out_max" => unit(o.set_cur_pwr_out_max(f(&a[0]) * uc::W, of(&a[1]).map(|x| x * uc::J), of(&a[2]).map(|x| x * uc::J))),
         _ => Err(Unsup(format!("no runner entry for {fname}"))),
@@ -110,6 +122,27 @@ fn call_res(o: &mut ReversibleEnergyStorage, fname: &str, a: &[Value]) -> CallRe
 
 fn call_loco(o: &mut Locomotive, fname: &str, a: &[Value]) -> CallRes {
     match fname {
+        "<Locomotive as Mass>::set_mass" => unit(o.set_mass(of(&a[0]).map(|x| x * uc::KG), mse(&a[1])?)),
+        "Locomotive::set_force_max" => {
+            let eff = match a[1].as_str().unwrap_or("") {
+                "Mass" => ForceMaxSideEffect::Mass,
+                "UpdateMu" => ForceMaxSideEffect::UpdateMu,
+                "SetMuToNone" => ForceMaxSideEffect::SetMuToNone,
+                "SetMassToNone" => ForceMaxSideEffect::SetMassToNone,
+                "SetMassAndMuToNone" => ForceMaxSideEffect::SetMassAndMuToNone,
+                s => return Err(Unsup(format!("ForceMaxSideEffect {s}"))),
+            };
+            unit(o.set_force_max(f(&a[0]) * uc::N, eff))
+        }
+        "Locomotive::set_mu" => {
+            let eff = match a[1].as_str().unwrap_or("") {
+                "Mass" => MuSideEffect::Mass,
+                "ForceMax" => MuSideEffect::ForceMax,
+                "SetMassToNone" => MuSideEffect::SetMassToNone,
+                s => return Err(Unsup(format!("MuSideEffect {s}"))),
+            };
+            unit(o.set_mu(f(&a[0]) * uc::R, eff))
+        }
         "Locomotive::set_pwr_aux" => { o.set_pwr_aux(ob(&a[0])); Ok(Ok(Value::Null)) }
         "Locomotive::set_cur_pwr_max_out" => unit(o.set_cur_pwr_max_out(of(&a[0]).map(|x| x * uc::W), f(&a[1]) * uc::S)),
         "Locomotive::solve_energy_consumption" => unit(o.solve_energy_consumption(f(&a[0]) * uc::W, f(&a[1]) * uc::S, ob(&a[2]))),
@@ -119,6 +152,8 @@ fn call_loco(o: &mut Locomotive, fname: &str, a: &[Value]) -> CallRes {
 
 fn call_consist(o: &mut Consist, fname: &str, a: &[Value]) -> CallRes {
     match fname {
+        "<Consist as Mass>::mass" => Ok(o.mass().map(|m| json!(m.map(|x| x.get::<si::kilogram>())))),
+        "Consist::force_max" => Ok(o.force_max().map(|x| json!(x.get::<si::newton>()))),
         "Consist::set_pwr_aux" => unit(o.set_pwr_aux(ob(&a[0]))),
         "Consist::set_cur_pwr_max_out" => unit(o.set_cur_pwr_max_out(of(&a[0]).map(|x| x * uc::W), f(&a[1]) * uc::S)),
         "Consist::solve_energy_consumption" => unit(o.solve_energy_consumption(f(&a[0]) * uc::W, f(&a[1]) * uc::S, ob(&a[2]))),
